@@ -497,6 +497,7 @@ class FnSpec:
         self.quals = None
         self.sig_only = False
         self.assume = False
+        self.notwin = False
         self.selfty = None
         self.extra = {}
 
@@ -526,6 +527,8 @@ def parse_fn_directive(lines, defaults):
             fs.sig_only = True
         elif o == "assume":
             fs.assume = True
+        elif o == "notwin":
+            fs.notwin = True
         elif o == "nopub":
             fs.quals = ""
     fs.props = defaults.get("props")
@@ -685,7 +688,7 @@ def render_fn(idx, fs, table, ctx):
                   "sha256_body": sha(idx.src(it.tb, it.t1)), "sha256_rewritten": sha(body_txt),
                   "rules": sorted(rules.fired), "props": fs.props, "src_line": idx.line_of(it.t0),
                   "n_requires": len(fs.requires), "n_ensures": len(fs.ensures),
-                  "anchored_hints": len(fs.after), "loops": len(fs.loops),
+                  "anchored_hints": len(fs.after), "loops": len(fs.loops), "notwin": fs.notwin,
                   "fn_name": fs.newname or fs.name})
     return text
 
@@ -723,7 +726,12 @@ def expand_for(lines, root):
         if s.startswith("//@for "):
             m = re.match(r"//@for\s+([\w,\s]+?)\s+in\s+(.*)$", s)
             names = [x.strip() for x in m.group(1).split(",")]
-            tuples = re.findall(r"\(([^()]*)\)", m.group(2))
+            spec = m.group(2).strip()
+            if spec.startswith("@"):
+                for fl in open(root + "/specs/families.txt"):
+                    if fl.startswith(spec[1:] + ":"):
+                        spec = fl.split(":", 1)[1]
+            tuples = re.findall(r"\(([^()]*)\)", spec)
             depth = 1
             j = i + 1
             while j < len(lines):
@@ -780,7 +788,7 @@ def render_unit(idx, tmpl_path, root, must_fail=False):
                 j += 1
             block[0] = block[0].strip()
             fs = parse_fn_directive(block, defaults)
-            if must_fail and not fs.sig_only and not fs.assume:
+            if must_fail and not fs.sig_only and not fs.assume and not fs.notwin:
                 fs.ensures = list(fs.ensures) + ["false"]
             txt = render_fn(idx, fs, table, ctx)
             first = len(out) + 1
